@@ -49,10 +49,25 @@ def run(ctx):
         json.dump(scens, f)
     tp = ctx.path("trace.ndjson")
     nrand = 300 if q else 40000
-    rc_, out = vlib.go_test(ctx, "ringbuffer", HARNESS, "TestVerifC18",
+    rc_, out = vlib.go_test(ctx, "ringbuffer", HARNESS, "TestVerifC18$",
                             env={"VERIF_SCEN": sp, "VERIF_OUT": tp, "VERIF_NRANDOM": nrand})
     if rc_ != 0:
         raise vlib.MachineryError("driver failed:\n" + out[-3000:])
+    # the two users at the same time: RingConc.tla (Write / Read as the steps in which they touch the shared memory) and a
+    # writer + a reader goroutine on two RingBuffer objects that map the same shared memory
+    for cfg in ("RingConcTree.cfg",):
+        rcc = vlib.run_tlc(ctx, "RingConc", cfg, workers=8, timeout=900)
+        if not rcc.ok:
+            raise vlib.MachineryError("RingConc %s: %s" % (cfg, rcc.violated))
+    rpf = vlib.run_tlc(ctx, "RingConc", "RingConcPublishFirst.cfg", workers=4, timeout=600)
+    ctx.notes["ringconc_variant_publish_first"] = {"violated": rpf.violated, "meaning": "storing the write pointer before the bytes are copied lets a concurrent read return bytes that were not written yet"}
+    tc = ctx.path("trace_conc.ndjson")
+    rc_, out = vlib.go_test(ctx, "ringbuffer", HARNESS, "TestVerifC18Conc$", env={"VERIF_OUT": tc, "VERIF_NRANDOM": 3 if q else 40}, timeout=1800)
+    if rc_ != 0:
+        raise vlib.MachineryError("concurrent driver failed:\n" + out[-3000:])
+    conc = vlib.read_ndjson(tc)
+    ctx.notes["concurrent_sessions"] = len(conc)
+    vlib.write_ndjson(tp, vlib.read_ndjson(tp) + conc)
     viols, done = vlib.validate_trace(ctx, "RingBufferTrace", "RingBufferTrace.cfg", tp)
     events = vlib.read_ndjson(tp)
     judge(ctx, events, viols)
@@ -78,6 +93,13 @@ def split_scen(events):
 
 
 def judge(ctx, events, viols):
+    conc = {e["scen"]: e for e in events if e["ev"] == "Conc"}
+    events = [e for e in events if e["ev"] != "Conc"]
+    for v in [v for v in viols if v["scen"] in conc]:
+        vlib.report_violation(ctx, {"predicate": v["predicate"], "call": "concurrent writer and reader"}, {"session": conc[v["scen"]]})
+    viols = [v for v in viols if v["scen"] not in conc]
+    for e in conc.values():
+        vlib.add_case(ctx, ["conc", e["cap"], e["block"]], nontrivial=True)
     scs = split_scen(events)
     byid = {s["id"]: s for s in scs}
     for s in scs:
